@@ -45,6 +45,7 @@ type HarnessSpec struct {
 	Wall     int
 	Merge    []string
 	NoMerge  bool
+	NoIfConv bool
 	Bounds   string
 	Reach    []string
 	fn       *ssa.Function
@@ -164,6 +165,8 @@ func loadProgram(repo, verif string) (*Program, error) {
 							}
 						case "nomerge":
 							h.NoMerge = true
+						case "noifconv":
+							h.NoIfConv = true
 						case "bounds":
 							h.Bounds = arg
 						}
@@ -275,8 +278,9 @@ func newExec(P *Program, h *HarnessSpec, opts RunOpts) (*Exec, error) {
 		tier: opts.Tier, harness: h.Name, initDone: map[*ssa.Package]bool{}, initAllow: map[string]bool{},
 		vioSeen: map[string]bool{}, reach: map[string]int{}, reachModels: map[string][]InputVal{},
 		funcs: map[string]bool{}, cuts: map[string]int{}, assumes: map[string]bool{}, maxViolations: 8,
-		maxAlloc: 1 << 17, smallBuf: 24,
+		maxAlloc: 1 << 17, smallBuf: 24, regions: map[*ssa.BasicBlock]regionInfo{},
 	}
+	ex.noIfConv = h.NoIfConv
 	ex.started = time.Now()
 	ex.wallBudget = 15 * time.Minute
 	if opts.Tier > 0 {
